@@ -1134,6 +1134,13 @@ where
                 done,
             } => {
                 let max_idx = new_entries.last().map(|e| e.index).unwrap_or(0);
+                // Everything from truncate_from on is being replaced on disk: neither the
+                // page-cache watermark nor durable_index may stay above truncate_from - 1
+                // (only this task raises them, so lowering them here cannot be undone by a
+                // concurrent fsync of an earlier batch).
+                let below = truncate_from.saturating_sub(1);
+                *pending_max = (*pending_max).min(below);
+                this.durable_index.fetch_min(below, Ordering::AcqRel);
                 let result = this.log_store.replace_range(truncate_from, new_entries).await;
                 if let Err(ref e) = result {
                     error!("IOTask::ReplaceRange failed (fatal): {e:?}");
